@@ -14,16 +14,16 @@ import (
 )
 
 func init() {
-	register(&Rule{ID: "TS-CLEANUP", Floor: 4,
+	register(&Rule{ID: "TS-CLEANUP", Floor: 3,
 		Doc: "for every removal of a cache entry (delete on the entries map): on every path from the function entry — or from the point where the loop picks the key — to the removal, either the cleanup callback is nil, or the entry is absent, or the callback was called with that same key and the removal lies on its ok-edge",
 		Run: runCleanup})
-	register(&Rule{ID: "SH-IDEMPOTENT", Floor: 5,
+	register(&Rule{ID: "SH-IDEMPOTENT", Floor: 3,
 		Doc: "creating a content-addressed blob is idempotent: every BlobCreate that passes a BlobWithDigest option tests its error against ErrBlobExists (sibling agreement across all call sites), so that repeating an interrupted operation does not fail on its own earlier output",
 		Run: runIdempotent})
 	register(&Rule{ID: "SH-PASS-LOOP", Floor: 2,
 		Doc: "in each store's store-wide collection pass no path from the failure edge of one repository's collection leaves the per-repository loop: a failing repository does not end the pass",
 		Run: runPassLoop})
-	register(&Rule{ID: "TS-SAVE", Floor: 4,
+	register(&Rule{ID: "TS-SAVE", Floor: 3,
 		Doc: "directory store: after IndexInsert/IndexRemove mutate the in-memory index every path to a return passes the save and returns its result; an index replaced by the collector is saved on all paths; the ingest's ‘modified’ result leads to a save guarded only by the read-only setting",
 		Run: runSave})
 	register(&Rule{ID: "SH-DIGESTER", Floor: 6,
@@ -124,12 +124,27 @@ func runCleanup(c *core.Ctx) {
 			bad := ""
 			tracked := map[ssa.Value]int{}
 			var pruneCalls []*ssa.Call
+			// keyArg: the key argument of a cleanup call — the callback itself, or a method of the cache that
+			// wraps it (calls it with one of its own parameters as key and returns its error)
+			keyArg := map[*ssa.Call]ssa.Value{}
 			an.Calls(fn, func(call ssa.CallInstruction) {
-				if cc, ok := call.(*ssa.Call); ok && !cc.Call.IsInvoke() && cc.Call.StaticCallee() == nil && isPruneFn(cc.Call.Value) {
+				cc, ok := call.(*ssa.Call)
+				if !ok || cc.Call.IsInvoke() {
+					return
+				}
+				if cc.Call.StaticCallee() == nil && isPruneFn(cc.Call.Value) {
 					pruneCalls = append(pruneCalls, cc)
-					if len(cc.Call.Args) > 0 && an.Origin(cc.Call.Args[0]) == K {
-						an.TrackSlots(tracked, cc, 0)
+					if len(cc.Call.Args) > 0 {
+						keyArg[cc] = cc.Call.Args[0]
 					}
+				} else if h := cc.Call.StaticCallee(); h != nil && h != fn && len(h.Blocks) > 0 {
+					if pi, ok := pruneWrapper(h, isPruneFn); ok && pi < len(cc.Call.Args) {
+						pruneCalls = append(pruneCalls, cc)
+						keyArg[cc] = cc.Call.Args[pi]
+					}
+				}
+				if ka := keyArg[cc]; ka != nil && an.Origin(ka) == K {
+					an.TrackSlots(tracked, cc, 0)
 				}
 			})
 			an.Paths(an.PathSpec[cleanState]{Fn: fn, Init: cleanState{},
@@ -145,7 +160,7 @@ func runCleanup(c *core.Ctx) {
 					}
 					for _, pc := range pruneCalls {
 						if in == ssa.Instruction(pc) {
-							if len(pc.Call.Args) > 0 && an.Origin(pc.Call.Args[0]) == K {
+							if ka := keyArg[pc]; ka != nil && an.Origin(ka) == K {
 								s.called, s.errv = true, an.EU
 							}
 							return []cleanState{s}
@@ -421,6 +436,14 @@ func runSave(c *core.Ctx) {
 						if _, isPtr := sc.Signature.Recv().Type().(*types.Pointer); isPtr && core.FuncPkgPath(sc) == r.TypesPath {
 							muts = append(muts, x)
 						}
+					} else if x.Call.StaticCallee() == nil && !x.Call.IsInvoke() {
+						// the address of the index handed to a function value (a `change func(*Index)` parameter): a mutation
+						for _, a := range x.Call.Args {
+							if isIndexPtr(a) {
+								muts = append(muts, x)
+								break
+							}
+						}
 					}
 				case *ssa.Store:
 					if isIndexPtr(x.Addr) {
@@ -435,6 +458,14 @@ func runSave(c *core.Ctx) {
 			})
 			if len(muts) > 0 {
 				isAPI := r.APIMethods["Repo"][fn.Name()]
+				if !isAPI && fn.Parent() == nil {
+					// a helper the API mutators delegate to (their whole body is `return helper(…)`) stands for them
+					for _, site := range c.P.Callers(fn) {
+						if pf := site.Parent(); pf != nil && pf.Signature.Recv() != nil && r.APIMethods["Repo"][pf.Name()] && (pf.Name() == "IndexInsert" || pf.Name() == "IndexRemove") {
+							isAPI = true
+						}
+					}
+				}
 				bad := ""
 				var saveCalls []*ssa.Call
 				an.Paths(an.PathSpec[st]{Fn: fn, Init: st{},
@@ -478,7 +509,7 @@ func runSave(c *core.Ctx) {
 						}
 						return []st{s}
 					}})
-				if r.APIMethods["Repo"][fn.Name()] {
+				if isAPI {
 					c.SetTags("api")
 				} else {
 					c.SetTags("collector")
@@ -691,6 +722,29 @@ func runDigester(c *core.Ctx) {
 				}
 			}
 		}
+		if !cmpOK {
+			// the comparison may be made by a helper of the upload type whose success the commit is guarded by
+			for _, g := range an.GuardingEdges(commitOp.Block()) {
+				for _, fe := range an.RefusedHelperEdges(g) {
+					x, y, op, ok := an.CmpTest(fe.If())
+					if !ok || (op != token.EQL && op != token.NEQ) {
+						continue
+					}
+					for _, pair := range [][2]ssa.Value{{x, y}, {y, x}} {
+						_, p := accessPath(pair[1])
+						if isDigestOfField(an.Origin(pair[0])) && len(p) > 0 && p[len(p)-1] == st.Field(eField).Name() {
+							neqSucc := 0
+							if op == token.EQL {
+								neqSucc = 1
+							}
+							if fe.Succ == neqSucc {
+								cmpOK = true // the mismatch edge inside the helper leads to no successful return
+							}
+						}
+					}
+				}
+			}
+		}
 		c.Check(cmpOK, "commit-compares:"+un, commitOp.Pos(), "the commit compares the current digester's digest with the expected digest and the mismatch edge does not reach the rename / map insert: %v", cmpOK)
 		// final name from the digester
 		derived := false
@@ -704,6 +758,10 @@ func runDigester(c *core.Ctx) {
 			if isDigestOfField(v) {
 				derived = true
 				return
+			}
+			// the name comes out of a helper of the store package: what it returns
+			for _, hr := range an.HelperReturns(v, func(h *ssa.Function) bool { return core.FuncPkgPath(h) == core.FuncPkgPath(fn) }) {
+				walk(hr.Val, d+1)
 			}
 			if in, ok := v.(ssa.Instruction); ok {
 				for _, op := range in.Operands(nil) {
@@ -964,7 +1022,7 @@ func baseGlobal(v ssa.Value) *ssa.Global {
 }
 
 func init() {
-	register(&Rule{ID: "TS-TIMER", Floor: 2,
+	register(&Rule{ID: "TS-TIMER", Floor: 1,
 		Doc: "the cache arms its expiry timer only when its timer field is nil (premise, checked); hence ‘field non-nil ⇒ timer pending’ must be kept: after every Stop() of that timer the field is set to nil (or the timer re-armed) on all paths before the function returns — a stopped timer left in the field is never re-armed and nothing in the cache expires again",
 		Run: func(c *core.Ctx) {
 			isTimerField := func(addr ssa.Value) bool {
@@ -1108,7 +1166,7 @@ func init() {
 }
 
 func init() {
-	register(&Rule{ID: "SH-MODSTAMP", Floor: 5,
+	register(&Rule{ID: "SH-MODSTAMP", Floor: 3,
 		Doc: "premise (checked per store): the store-wide pass skips a repository on a comparison of a time field of the repository with the start of the window; hence every operation that adds a blob to a repository or changes its index stores to that field — in the same function or in what it calls (incl. deferred calls, callbacks and goroutines, resolved through the call graph) — otherwise content that became garbage in a repository nobody touches again is never visited by a pass",
 		Run: func(c *core.Ctx) {
 			r := requireRoles(c)
@@ -1131,15 +1189,24 @@ func init() {
 					if !callsGC {
 						continue
 					}
-					an.Calls(fn, func(call ssa.CallInstruction) {
-						if !an.IsMethod(call, "time", "Time", "Before") && !an.IsMethod(call, "time", "Time", "After") {
-							return
-						}
-						for _, a := range call.Common().Args {
-							root, p := accessPath(an.Strip(a))
-							if len(p) == 1 && root != nil && an.NamedOf(an.Deref(root.Type())) == fam.Repo {
-								stampField = p[0]
+					scan := func(f *ssa.Function) {
+						an.Calls(f, func(call ssa.CallInstruction) {
+							if !an.IsMethod(call, "time", "Time", "Before") && !an.IsMethod(call, "time", "Time", "After") {
+								return
 							}
+							for _, a := range call.Common().Args {
+								root, p := accessPath(an.Strip(a))
+								if len(p) == 1 && root != nil && an.NamedOf(an.Deref(root.Type())) == fam.Repo {
+									stampField = p[0]
+								}
+							}
+						})
+					}
+					scan(fn)
+					// the comparison may sit in a small method of the repository type the pass calls
+					an.Calls(fn, func(call ssa.CallInstruction) {
+						if sc := call.Common().StaticCallee(); sc != nil && sc.Name() != "gc" && sc.Signature.Recv() != nil && an.NamedOf(an.Deref(sc.Signature.Recv().Type())) == fam.Repo && len(sc.Blocks) > 0 {
+							scan(sc)
 						}
 					})
 				}
@@ -1226,6 +1293,13 @@ func init() {
 								recv, _ := an.CallArgs(x)
 								if fa, ok := an.Strip(recv).(*ssa.FieldAddr); ok && an.NamedOf(an.Deref(fa.X.Type())) == fam.Repo {
 									ops = append(ops, op{"changes the repository's index", in})
+								}
+							} else if x.Common().StaticCallee() == nil && !x.Common().IsInvoke() {
+								for _, a := range x.Common().Args {
+									if fa, ok := a.(*ssa.FieldAddr); ok && isNamedType(an.Deref(fa.Type()), r.TypesPath, "Index") && an.NamedOf(an.Deref(fa.X.Type())) == fam.Repo {
+										ops = append(ops, op{"hands the repository's index to a function that changes it", in})
+										break
+									}
 								}
 							}
 							if an.IsFunc(x, "os", "Rename") && fn.Signature.Recv() != nil && an.NamedOf(an.Deref(fn.Signature.Recv().Type())) == fam.Upload {
@@ -1605,4 +1679,50 @@ func busyFlagLeak(c *core.Ctx, worker *ssa.Function, flag string) string {
 			return []bool{s}
 		}})
 	return leak
+}
+
+// pruneWrapper: h calls the cleanup callback with one of its own parameters as key and every return of h
+// returns that call's error. Returns the index of the key parameter.
+func pruneWrapper(h *ssa.Function, isPruneFn func(ssa.Value) bool) (int, bool) {
+	if h.Signature.Results().Len() != 1 || !an.IsErrorType(h.Signature.Results().At(0).Type()) {
+		return 0, false
+	}
+	var inner *ssa.Call
+	n := 0
+	an.Calls(h, func(call ssa.CallInstruction) {
+		if cc, ok := call.(*ssa.Call); ok && !cc.Call.IsInvoke() && cc.Call.StaticCallee() == nil && isPruneFn(cc.Call.Value) {
+			inner = cc
+			n++
+		}
+	})
+	if n != 1 || len(inner.Call.Args) == 0 {
+		return 0, false
+	}
+	pi := -1
+	for i, p := range h.Params {
+		if an.Origin(inner.Call.Args[0]) == ssa.Value(p) {
+			pi = i
+		}
+	}
+	if pi < 0 {
+		return 0, false
+	}
+	ok := true
+	an.Instrs(h, func(in ssa.Instruction) {
+		if ret, isRet := in.(*ssa.Return); isRet {
+			if len(ret.Results) == 1 && an.Origin(ret.Results[0]) == ssa.Value(inner) {
+				return
+			}
+			// `return nil` on the ‘no callback configured’ edge
+			if len(ret.Results) == 1 && an.IsNilConst(ret.Results[0]) {
+				for _, g := range an.GuardingEdges(ret.Block()) {
+					if x, nilSucc, isNil := an.NilTest(g.If()); isNil && g.Succ == nilSucc && isPruneFn(x) {
+						return
+					}
+				}
+			}
+			ok = false
+		}
+	})
+	return pi, ok
 }
